@@ -343,7 +343,8 @@ func (g *Generator) generateFlattenFieldUnmarshal(gf *protogen.GeneratedFile, in
 	}
 
 	childMsg := field.Message
-	childTypeName := childMsg.GoIdent.GoName
+	// (qualified: the child message may live in another Go package)
+	childTypeName := gf.QualifiedGoIdent(childMsg.GoIdent)
 
 	gf.P("// Extract flattened child fields for: ", field.Desc.Name())
 	gf.P("var flat", goName, " *", childTypeName)
